@@ -1455,12 +1455,6 @@ ensures
 before `let mut parents_ready = SmallVec::<[(Slot, BlockId); 1]>::new();`
         let ghost pre = *old(self);
         proof { lemma_ext_refl(pre); }
-before `parents_ready.verif_extend(self.mark_notar_fallback(finalized));`
-        let ghost cur = *self;
-        let ghost acc = parents_ready.view();
-after `parents_ready.verif_extend(self.mark_notar_fallback(finalized));`
-        proof { lemma_collect(pre, cur, *self, acc, parents_ready.view().subrange(acc.len() as int, parents_ready.view().len() as int)); 
-                assert(parents_ready.view() =~= acc + parents_ready.view().subrange(acc.len() as int, parents_ready.view().len() as int)); }
 loop 0
         invariant
             pre == *old(self) && pre.wf() && self.wf() && Self::ext(pre, *self) && (pre.cpl() ==> self.cpl()),
@@ -1471,10 +1465,10 @@ loop 0
             event.finalized is Some && (event.finalized->0).0.0 >= pre.root.0 ==> self.nf_has(event.finalized->0),
             forall|i: int| 0 <= i < verif_a && (#[trigger] event.implicitly_finalized@[i]).0.0 >= pre.root.0 ==> self.nf_has(event.implicitly_finalized@[i]),
         decreases verif_if@.len() - verif_a,
-before `parents_ready.verif_extend(self.mark_notar_fallback(block_id));`
+before `parents_ready.verif_extend(self.mark_notar_fallback(VID));#*`
         let ghost cur = *self;
         let ghost acc = parents_ready.view();
-after `parents_ready.verif_extend(self.mark_notar_fallback(block_id));`
+after `parents_ready.verif_extend(self.mark_notar_fallback(VID));#*`
         proof { lemma_collect(pre, cur, *self, acc, parents_ready.view().subrange(acc.len() as int, parents_ready.view().len() as int)); 
                 assert(parents_ready.view() =~= acc + parents_ready.view().subrange(acc.len() as int, parents_ready.view().len() as int)); }
 loop 1
